@@ -41,6 +41,7 @@ QInit(cap, hasEH) ==
     handles |-> {1}, dropping |-> {},
     drivers |-> {},       \* threads that called emit / drop
     npanic  |-> 0, released |-> FALSE,
+    sbOk |-> 0, sbDel |-> 0,  \* accepted / delivered counts when the sampler began to read
     viol |-> {} ]
 
 Flag(q, v) == [q EXCEPT !.viol = @ \cup v]
@@ -141,13 +142,15 @@ QWDropped(q) ==
   IN [Flag(q, v) EXCEPT !.released = TRUE]
 
 (* ---- counters -------------------------------------------------------------- *)
-\* valid at ANY moment (q read first, then s, d, p by the same thread)
+\* valid at ANY moment: sbegin is logged before the sampler reads q, then s, d, p; sample after.
+\* Lower bounds refer to what had been logged when it began, upper bounds to what is logged now.
+QSampleBegin(q) == [q EXCEPT !.sbOk = Cardinality(q.okret), !.sbDel = Cardinality(q.deliv)]
 QSample(q, s, d, qd, p) ==
   LET calls == Cardinality(q.calls)
       v == (IF qd > s THEN {<<"C15", "queued-exceeds-submitted-or-wrapped-around">>} ELSE {})
            \cup (IF s > calls THEN {<<"C15", "submitted-exceeds-the-emits-started">>} ELSE {})
-           \cup (IF s < Cardinality(OkRet(q)) THEN {<<"C15", "submitted-misses-an-accepted-emit">>} ELSE {})
-           \cup (IF d < Cardinality(Delivered(q)) THEN {<<"C15", "drained-misses-a-delivered-metric">>} ELSE {})
+           \cup (IF s < q.sbOk THEN {<<"C15", "submitted-misses-an-accepted-emit">>} ELSE {})
+           \cup (IF d < q.sbDel THEN {<<"C15", "drained-misses-a-delivered-metric">>} ELSE {})
            \cup (IF d > Cardinality(Delivered(q)) + 1 THEN {<<"C15", "drained-exceeds-the-metrics-dequeued">>} ELSE {})
            \cup (IF p > q.npanic THEN {<<"C11", "panic-count-too-high">>} ELSE {})
   IN Flag(q, v)
